@@ -34,7 +34,7 @@ def MC_RUNS(quick):
             ("Flows", "Flows_prv", "cp_pdprv / cp_lvprv over Z_3: every input, blinding and single replaced response element", False)]
     if not quick:
         runs += [("Enc", "Enc_oaep_k7", "k = 7, messages of 0..3 bytes", False),
-                 ("Enc", "Enc_paillier_big", "every n = p q <= 150, all operand pairs for n <= 33", False),
+                 ("Enc", "Enc_paillier_big", "every n = p q <= 127, all operand pairs for n <= 33", False),
                  ("Flows", "Flows_r7", "Z_7, PSI sets of size <= 3", False),
                  ("Flows", "Flows_prv5", "private-input delegation over Z_5 (blinding points from {0, 2})", False)]
     return runs
